@@ -164,7 +164,7 @@ func parseGuard(g string) (guardSpec, error) {
 func guardClauseResults(eng *vc.Engine, fname string) []StructResult {
 	spec := eng.Spec.Funcs[fname]
 	fn := eng.Func(fname)
-	if spec == nil || fn == nil || (len(spec.Guards) == 0 && len(spec.Orders) == 0 && len(spec.Reads) == 0 && len(spec.ControlOnly) == 0 && len(spec.DebugOnly) == 0 && len(spec.FeedsOnly) == 0 && !spec.ReturnsFresh && len(spec.NoStoreThrough) == 0) {
+	if spec == nil || fn == nil || (len(spec.Guards) == 0 && len(spec.Orders) == 0 && len(spec.Reads) == 0 && len(spec.ControlOnly) == 0 && len(spec.DebugOnly) == 0 && !spec.MapOrderIndependent && len(spec.FeedsOnly) == 0 && !spec.ReturnsFresh && len(spec.NoStoreThrough) == 0) {
 		return nil
 	}
 	var out []StructResult
@@ -217,6 +217,10 @@ func guardClauseResults(eng *vc.Engine, fname string) []StructResult {
 			why, isBad := bad[f]
 			out = append(out, StructResult{Name: fmt.Sprintf("%s#feeds:%s.%s", fname, fc.Type, f), Desc: fmt.Sprintf("the value of %s.%s reaches %s unchanged", fc.Type, f, strings.Join(fc.Into, "/")), OK: !isBad, Detail: why})
 		}
+	}
+	if spec.MapOrderIndependent {
+		why, nLoops, nFuncs := mapOrderIndependent(fn)
+		out = append(out, StructResult{Name: fname + "#map-order-independent", Desc: fmt.Sprintf("no floating-point value is accumulated across the iterations of a range-over-map loop (%d such loops in %d functions reachable from %s)", nLoops, nFuncs, fname), OK: why == "", Detail: why})
 	}
 	for _, dc := range spec.DebugOnly {
 		tn, field, ok := strings.Cut(dc.Field, ".")
@@ -1269,4 +1273,64 @@ func debugOnly(root *ssa.Function, tname, field string, writes []string) (string
 		}
 	}
 	return "", nLoads, len(funcsWith)
+}
+
+
+// mapOrderIndependent: over root and every function of its package statically
+// reachable from it (closures included): no loop that ranges over a map carries
+// a floating-point value from one iteration to the next (floating-point
+// addition is not associative, Go's map iteration order is random: such a sum
+// differs between runs). Integer accumulation is order independent and
+// allowed. Returns "" or the first offending loop.
+func mapOrderIndependent(root *ssa.Function) (string, int, int) {
+	seen := map[*ssa.Function]bool{root: true}
+	work := []*ssa.Function{root}
+	nLoops, nFuncs := 0, 0
+	isFloat := func(t types.Type) bool {
+		b, ok := t.Underlying().(*types.Basic)
+		return ok && b.Info()&types.IsFloat != 0
+	}
+	for len(work) > 0 {
+		f := work[len(work)-1]
+		work = work[:len(work)-1]
+		nFuncs++
+		for _, b := range f.Blocks {
+			mapLoop := false
+			for _, ins := range b.Instrs {
+				if nx, ok := ins.(*ssa.Next); ok && !nx.IsString {
+					if rg, ok := nx.Iter.(*ssa.Range); ok {
+						if _, isMap := rg.X.Type().Underlying().(*types.Map); isMap {
+							mapLoop = true
+						}
+					}
+				}
+				if c, ok := ins.(ssa.CallInstruction); ok {
+					if sc := c.Common().StaticCallee(); sc != nil && !seen[sc] && sc.Blocks != nil && sc.Pkg != nil && root.Pkg != nil && sc.Pkg == root.Pkg {
+						seen[sc] = true
+						work = append(work, sc)
+					}
+				}
+				if mc, ok := ins.(*ssa.MakeClosure); ok {
+					if cf, isF := mc.Fn.(*ssa.Function); isF && !seen[cf] && cf.Blocks != nil {
+						seen[cf] = true
+						work = append(work, cf)
+					}
+				}
+			}
+			if !mapLoop {
+				continue
+			}
+			nLoops++
+			for _, ins := range b.Instrs {
+				phi, ok := ins.(*ssa.Phi)
+				if !ok {
+					break
+				}
+				if isFloat(phi.Type()) {
+					return fmt.Sprintf("%s accumulates the floating-point value %q over a map iteration (%s)", vc.FuncName(f), phi.Comment, shortPath(f.Prog.Fset.Position(phi.Pos()).String())), nLoops, nFuncs
+				}
+			}
+		}
+	}
+	return "", nLoops, nFuncs
 }
